@@ -20,7 +20,8 @@ import (
 	"github.com/relab/hotstuff/security/crypto/keygen"
 )
 
-// NopLogger discards everything (and records warnings if asked to).
+// NopLogger discards everything (and, if asked to, records what is logged at warning or error level:
+// the checks read reports, not their wording or level).
 type NopLogger struct {
 	mu    sync.Mutex
 	Warns []string
@@ -38,8 +39,16 @@ func (l *NopLogger) DPanic(...any)          {}
 func (l *NopLogger) DPanicf(string, ...any) {}
 func (l *NopLogger) Debug(...any)           {}
 func (l *NopLogger) Debugf(string, ...any)  {}
-func (l *NopLogger) Error(...any)           {}
-func (l *NopLogger) Errorf(string, ...any)  {}
+func (l *NopLogger) Error(a ...any) {
+	if l.Keep {
+		l.rec(fmt.Sprint(a...))
+	}
+}
+func (l *NopLogger) Errorf(f string, a ...any) {
+	if l.Keep {
+		l.rec(fmt.Sprintf(f, a...))
+	}
+}
 func (l *NopLogger) Fatal(a ...any)         { panic(fmt.Sprint(a...)) }
 func (l *NopLogger) Fatalf(f string, a ...any) {
 	panic(fmt.Sprintf(f, a...))
